@@ -19,11 +19,14 @@ OWNER = {
     "ReloadCall": {"C05"}, "ReloadRet": {"C05"},
     "SubRecv": {"C06"}, "SubClosed": {"C06", "C18"}, "Subscribe": {"C06"}, "SubCancel": {"C06"},
     "RunRet": {"C01", "C04"},
-    "Crash": set(ALL_IDS), "Watchdog": {"C02"}, "Overdue": {"C02"},
+    "Crash": set(ALL_IDS), "Watchdog": {"C02"}, "Overdue": {"C02"}, "StartupOverdue": {"C03"},
 }
+# real-time verdicts of the harness that may be produced by a stalled machine: they count only if the same
+# scenario, re-run ALONE, gives the same verdict again (twice)
+TIMED_KINDS = {"StartupOverdue"}
 SNAPDIAG_OWNER = {"1": {"C02", "C05", "C06", "C18"}, "2": {"C02"}, "3": {"C06"}, "4": {"C02", "C04"}, "5": {"C18"}}
 PROP_OF_MONITOR = {"C01.order": "C01", "C01.exactly_once": "C01", "C01.not_before": "C01", "C03.gate": "C03", "C03.pending": "C03", "C01.cancel_after": "C01", "C03.once": "C03", "C04.nil": "C04", "C04.reports": "C04",
-                   "C04": "C04", "C04.cause": "C04", "C05.shape": "C05", "C05.no_dup": "C05", "C06": "C06", "C06.final": "C06", "C06.sub_entry": "C06",
+                   "C04": "C04", "C04.cause": "C04", "C05.shape": "C05", "C05.no_dup": "C05", "C05.lower": "C05", "C06": "C06", "C06.final": "C06", "C06.sub_entry": "C06",
                    "C18.final": "C18", "C18.bounded": "C18"}
 # monitors whose failures have one canonical key (a specific, documented defect shape)
 CANON_KEY = {"C06.final": "monitor-overwrites-final-state"}
@@ -81,6 +84,39 @@ def owners_of(line):
     return OWNER.get(kind, ALL), kind
 
 
+def hang_key(txt):
+    """Canonical key of a hang (the harness's real-time 'Overdue' verdict) whose SHAPE is a recorded finding of
+    C02, computed from the scenario's own header and event log; None for every other shape.
+      shutdown-before-run-blocks-forever: a Stop() that was called and never returned, on a runnable with a
+        lifecycle-style Stop whose Run was never invoked, in a scenario in which no Run at all was invoked and
+        the Shutdown() call was logged before Run() was called (or Run() was never called);
+      never-returning-run-blocks-stop-forever: a Stop() that was called and never returned, on a runnable with a
+        lifecycle-style Stop whose Run was invoked, is declared never-returning, and has not returned."""
+    lines = txt.splitlines()
+    if not lines:
+        return None
+    m = re.search(r"caps=(\S*)", lines[0])
+    caps = m.group(1).split(",") if m and m.group(1) else []
+    evs = [l[3:] for l in lines if l.startswith("EV ")]
+    pos = {}
+    for k, e in enumerate(evs):
+        pos.setdefault(e, k)
+    sd_calls = [k for k, e in enumerate(evs) if re.match(r"Call \d+ Shutdown$", e)]
+    any_run = any(e.startswith("RunCall ") for e in evs)
+    for i, c in enumerate(caps):
+        if len(c) < 6 or c[4] != "1":
+            continue                      # not a lifecycle-style Stop
+        if "StopCall %d" % i not in pos or "StopRet %d" % i in pos:
+            continue                      # its Stop() is not the one that hangs
+        ran = "RunCall %d" % i in pos
+        if (not ran and not any_run and sd_calls and sd_calls[0] < pos["StopCall %d" % i]
+                and ("RunEnter" not in pos or sd_calls[0] < pos["RunEnter"])):
+            return "shutdown-before-run-blocks-forever"
+        if ran and c[5] == "n" and not any(e.startswith("RunRet %d " % i) for e in evs):
+            return "never-returning-run-blocks-stop-forever"
+    return None
+
+
 def scn_of(line):
     m = re.search(r"SCN (\d+) family=(\w+)", line)
     return (m.group(1), m.group(2)) if m else ("0", "mixed")
@@ -119,17 +155,33 @@ def run_property(run, pid, families, prop_file, proof_files, n_quick=210, n_thor
             if len(t) >= 2 and not l.startswith("#"):
                 corpus_ids.append((t[0], t[1]))
     supbin = os.path.join(C.BIN, "sup")
+    expected, harness_rc = 0, []
     for seed, fam in corpus_ids:
         rc, out = C.sh([supbin, "-child", "-seed", seed, "-family", fam], timeout=60)
+        expected += 1
+        if rc != 0:
+            harness_rc.append(("corpus %s/%s" % (fam, seed), rc, out[-300:]))
         scens += split_scenarios(out)
     per = max(1, n // len(families))
     for k, fam in enumerate(families):
         rc, out = C.sh([supbin, "-n", str(per), "-seed", str(run.seed * 1000 + k * 7 + sum(map(ord, pid)) % 97), "-family", fam,
                         "-par", str(C.NPROC)], timeout=3000)
+        expected += per
+        if rc != 0:
+            harness_rc.append(("family %s" % fam, rc, out[-300:]))
         scens += split_scenarios(out)
+    # a harness that exits non-zero or produces (almost) nothing is not a pass: zero scenarios would otherwise be
+    # zero disagreements
+    if harness_rc or len(scens) * 2 < expected:
+        run.violation("harness-failed", {"expected_scenarios": expected, "produced": len(scens), "nonzero_exits": harness_rc},
+                      "the supervisor harness build/bin/sup %s: the correspondence of %s was not checked" % (
+                          "exited non-zero (%s)" % ", ".join("%s: rc=%s" % (w, r) for w, r, _ in harness_rc) if harness_rc
+                          else "produced %d of the %d expected scenarios" % (len(scens), expected), pid),
+                      no_input_found=True)
     lines, tot = run_model(scens, C.NPROC)
     mine_rej, other_rej = 0, 0
     seen = set()
+    hangs = {}
     for l in lines:
         seed, fam = scn_of(l)
         txt = scenario_text(scens, seed, fam)
@@ -159,7 +211,7 @@ def run_property(run, pid, families, prop_file, proof_files, n_quick=210, n_thor
             # otherwise only the correspondence is broken
             own_fail = [x for x in lines if x.startswith("PROPFAIL") and scn_of(x) == (seed, fam)
                         and PROP_OF_MONITOR.get(x.split()[1]) == pid]
-            crash = "Crash" in l or "Watchdog" in l or "Overdue" in l
+            crash = "Crash" in l or "Watchdog" in l or "Overdue" in l   # (StartupOverdue included)
             # C02 is the progress property: the model rejects a Quiet event exactly when every model state
             # consistent with the trace still has a mandatory step enabled, i.e. the implementation is
             # observed blocked where the proved progress theorems say it must move: that scenario is the failing input
@@ -170,11 +222,32 @@ def run_property(run, pid, families, prop_file, proof_files, n_quick=210, n_thor
             leak = pid == "C18" and mm is not None and int(mm.group(1)) > int(mm.group(2))
             if own_fail:
                 continue  # reported above with the failing input
-            run.violation("corr:%s:%s:%s" % (kind, fam, seed),
+            key = "corr:%s:%s:%s" % (kind, fam, seed)
+            if kind in TIMED_KINDS:
+                again = 0
+                for _ in range(2):
+                    rc2, out2 = C.sh([supbin, "-child", "-seed", seed, "-family", fam], timeout=60)
+                    again += 1 if ("EV " + kind) in out2 else 0
+                payload["reproduced_alone"] = "%d/2" % again
+                if again < 2:
+                    run.notes.append("timed verdict %s of scenario %s/%s did not reproduce alone (%d/2): discarded" % (kind, fam, seed, again))
+                    mine_rej -= 1
+                    continue
+            if pid == "C02" and kind == "Overdue":
+                # a hang: known finding iff its shape (computed from the scenario itself) is a recorded one AND
+                # the model - which is faithful to the defect - accepted everything else of the trace
+                hk = hang_key(txt)
+                rejected = [x for x in lines if x.startswith("MISMATCH reject") and scn_of(x) == (seed, fam)]
+                if hk and not rejected:
+                    key = hk
+                    hangs[hk] = hangs.get(hk, 0) + 1
+            run.violation(key,
                           dict(payload, theorem="correspondence B: accept_from (lib/LTS.v) on coq/model/Supervisor.v rejected "
                                "the implementation's trace at the given event"),
                           "implementation trace rejected by the supervisor model at a %s event (scenario %s/%s)%s" % (
-                              kind, fam, seed, " - process crashed / hung" if crash else
+                              kind, fam, seed,
+                              " - real-time verdict of the harness, reproduced 2/2 when re-run alone" if kind in TIMED_KINDS else
+                              " - process crashed / hung" if crash else
                               " - implementation blocked where the model must progress" if stuck else
                               " - %s library goroutines observed, the model allows at most %s here" % mm.groups() if leak else ""),
                           no_input_found=not (crash or stuck or leak))
@@ -199,6 +272,31 @@ def run_property(run, pid, families, prop_file, proof_files, n_quick=210, n_thor
         "rejections_owned_by_other_properties": other_rej,
         "monitor_failures": {k[3:]: v for k, v in tot.items() if k.startswith("pf_")},
     })
+    if pid == "C02":
+        cov["known_hang_shapes_exhibited"] = hangs
+        # the witnesses of the recorded findings are replayed on every run: say so when they stop showing
+        for fam, key in (("shutdownfirst", "shutdown-before-run-blocks-forever"),
+                         ("neverreturn", "never-returning-run-blocks-stop-forever")):
+            if fam in families and any(f["key"] == key for f in run.findings) and not hangs.get(key):
+                ran = [x for x in scens if (" family=%s " % fam) in x.split("\n", 1)[0]]
+                if ran:
+                    run.notes.append("known finding %s: %d scenarios of family %s ran and none exhibited it - the entry "
+                                     "in known_findings.txt may be stale" % (key, len(ran), fam))
+    # an inconclusive verdict (the acceptor's closure ran out of fuel: SUP_FUEL, default 2500 steps per event) is
+    # neither acceptance nor rejection; fuel is counted in closure steps, not in time, so the rate does not depend on
+    # the load of the machine (0 - 0.5 % on the unchanged tree over the runs measured); a change that blows the
+    # frontier must not turn into silent non-coverage
+    inc, nsc = tot.get("inconclusive", 0), tot.get("scenarios", 0)
+    cov["acceptor_inconclusive_rate"] = round(inc / nsc, 4) if nsc else None
+    if inc > max(5, 0.05 * nsc):
+        run.violation("acceptor-inconclusive", {"inconclusive": inc, "scenarios": nsc},
+                      "the trace acceptor was inconclusive (out of fuel) on %d of %d scenarios (> 5 %%): the model's "
+                      "tau-closure no longer fits the budget, these traces were neither accepted nor rejected" % (inc, nsc),
+                      no_input_found=True)
+    if nsc < len(scens):
+        run.violation("harness-failed", {"scenarios_given": len(scens), "scenarios_evaluated": nsc},
+                      "the model driver evaluated %d of the %d scenarios the harness produced" % (nsc, len(scens)),
+                      no_input_found=True)
     run.assumptions += ["quiescence is detected from runtime.Stack statuses of all goroutines",
                         "a mutex-ordered event log is a linearisation consistent with real-time order at the mock/API boundary"]
 
